@@ -198,7 +198,7 @@ def lazy_scenarios():
             buf[0], buf[1] = i, i * 10
             yield [buf]
     lazy = lambda: glom.Flatten(init='lazy')  # noqa: E731
-    return [
+    return grouped_scenarios() + [
         ('nothing consumed up front', 'pulls', counted, lazy),
         ('counted source', 'value', lambda: counted([]), lazy),
         ('groupby groups', 'value', groups, lazy),
@@ -208,9 +208,44 @@ def lazy_scenarios():
     ]
 
 
+def grouped_scenarios():
+    """a reduction under an explicit mode wrapper (Auto / Fill) INSIDE a Group folds its own target, like anywhere else: the Group's
+    pending aggregation is none of its business — Group([Auto(R)]) is [glom(item, R) for item in target]"""
+    import glom
+    from glom import Auto, Fill, Flatten, Sum, Fold, Merge, T
+    from glom.grouping import Group
+    import operator
+    nested = lambda: [[[1], [2]], [[3]]]  # noqa: E731
+    out = []
+    for name, inner, src in (('Flatten', Flatten, nested), ('Sum', Sum, lambda: [[1, 2], [3]]),
+                             ('Fold mul', lambda: Fold(T, init=lambda: 1, op=operator.mul), lambda: [[2, 1], [3]]),
+                             ('Merge', lambda: Merge(init=collections.OrderedDict), lambda: [[{'a': 1}, {'a': 2, 'b': 3}], [{'c': 4}]])):
+        for wname, wrap in (('Auto', Auto), ('Fill', Fill)):
+            if wname == 'Fill' and name != 'Flatten':
+                continue
+            out.append(('Group([%s(%s)])' % (wname, name), 'grouped', src, (wrap, inner)))
+    return out
+
+
 def run_lazy(case):
     import glom
     name, what, src, mk = lazy_scenarios()[case['i']]
+    if what == 'grouped':
+        from glom.grouping import Group
+        wrap, inner = mk
+        try:
+            spec = Group([wrap(inner())])
+            got1 = glom.glom(src(), spec)
+            got2 = glom.glom(src(), spec)
+            want = [glom.glom(item, inner()) for item in src()]
+        except Exception as e:
+            return {'problems': ['%s: raised %s' % (name, type(e).__name__)]}
+        problems = []
+        if got1 != want or got2 != want:
+            problems.append('%s: %r then %r, each item folded on its own gives %r' % (name, got1, got2, want))
+        elif any(a is b for a, b in zip(got1, got2) if isinstance(a, (list, dict))):
+            problems.append('%s: two evaluations handed out the same container' % name)
+        return {'problems': problems}
     try:
         if what == 'pulls':
             log = []
